@@ -9,6 +9,8 @@ import (
 	"sync"
 	"sync/atomic"
 	"time"
+
+	"github.com/cilium/statedb/internal/simhook"
 )
 
 // sortableMutexSeq is a global sequence counter for the creation of new
@@ -24,6 +26,7 @@ type sortableMutex struct {
 }
 
 func (s *sortableMutex) Lock() {
+	simhook.Acquire(s, "table.lock")
 	start := time.Now()
 	s.Mutex.Lock()
 	s.acquireDuration = time.Since(start)
